@@ -1,22 +1,33 @@
 (* Executable entry points of the C02 model (correspondence) and specification oracles. *)
-From Verif Require Import Lib.Bytes Json.Ast Json.Parse Json.Print Sign.Base64 Sign.Model Sign.Instance Sign.Scenario.
+From Verif Require Import Lib.Bytes Json.Ast Json.Parse Json.Print Crash.Outcome Json.CompactModelC01 Fed.Utf8C13 Sign.Base64 Sign.Model Sign.Instance Sign.Scenario.
 Open Scope N_scope.
 
 Definition err : bytes := bs "err".
 Definition okb : bytes := bs "ok".
 Definition sig_mask : json := JStr (bs "SIG").
 
+(* a text as CanonicalJSON reads its strings: CompactJSON's treatment of escapes, through C01's
+   byte-level model of it - in particular unpaired surrogate escapes are dropped (finding F68).
+   The same as the text itself for every text without such escapes, up to spelling. *)
+Definition code_view (t : bytes) : bytes :=
+  match compact_model t with Ret b => b | Crash => t end.
+
 (* ---- C02.sign: [name; kid; seed; text] -> err | ok:<output with the new signature masked> *)
 Definition run_sign (args : list bytes) : bytes :=
   match args with
   | [name; kid; seed; t] =>
+      if negb (utf8_valid t) then err else
       match parse_json t with
+      | None => err
+      | Some _ =>
+      match parse_json (code_view t) with
       | None => err
       | Some v =>
           match s_sign_value name kid seed v with
           | None => err
           | Some o => bs "ok:" ++ canon_print (jset_path [k_signatures; name; kid] sig_mask o)
           end
+      end
       end
   | _ => bs "badargs"
   end.
@@ -66,15 +77,15 @@ Fixpoint parse_queries (l : list json) : option (list (bytes * bytes * bytes)) :
 Definition verdicts (f : bytes -> bytes -> bytes -> bool) (qs : list (bytes * bytes * bytes)) : bytes :=
   join_bytes [44] (map (fun q => match q with (n, k, p) => if f n k p then okb else err end) qs).
 
-Definition with_scenario (args : list bytes)
+Definition with_scenario (code : bool) (args : list bytes)
     (k : list step -> list json -> list (bytes * bytes * bytes) -> bytes) (onerr : bytes) : bytes :=
   match args with
   | t0 :: stepsT :: _ :: queriesT :: _ =>
-      match parse_json t0, parse_json stepsT, parse_json queriesT with
+      match parse_json (if code then code_view t0 else t0), parse_json stepsT, parse_json queriesT with
       | Some v0, Some (JArr sj), Some (JArr qj) =>
           match parse_steps sj, parse_queries qj with
           | Some steps, Some qs =>
-              match run_trace steps v0 with
+              match run_trace code steps v0 with
               | Some tr => k steps tr qs
               | None => onerr
               end
@@ -86,7 +97,7 @@ Definition with_scenario (args : list bytes)
   end.
 
 Definition run_scenario (args : list bytes) : bytes :=
-  with_scenario args
+  with_scenario true args
     (fun _ tr qs => verdicts (fun n k p => s_verify_value n k p (final_state tr)) qs)
     (bs "signerr").
 
@@ -96,8 +107,19 @@ Definition run_scenario (args : list bytes) : bytes :=
 Definition prop_scenario (args : list bytes) : bytes :=
   match args with
   | [_; _; _; _; obs] =>
-      let want := with_scenario args (fun steps tr qs => verdicts (spec_verdict steps tr) qs) (bs "signerr") in
-      if bytes_eqb obs want then okb else bs "FAIL want=" ++ want ++ bs " impl=" ++ obs
+      let want := with_scenario false args (fun steps tr qs => verdicts (spec_verdict steps tr) qs) (bs "signerr") in
+      if bytes_eqb obs want then okb
+      else
+        (* a recorded finding is named only when the implementation does exactly what the model of
+           the code does with the feature in question; anything else is a plain FAIL *)
+        let code := run_scenario (firstn 4 args) in
+        let surr := with_scenario false args (fun steps _ _ => if has_surr steps then bs "y" else bs "n") (bs "n") in
+        let rept := with_scenario false args (fun _ tr _ => if existsb has_repeats tr then bs "y" else bs "n") (bs "n") in
+        let tag :=
+          if bytes_eqb obs code && bytes_eqb surr (bs "y") then bs "FAIL-UNPAIRED-SURROGATE"
+          else if bytes_eqb obs code && bytes_eqb rept (bs "y") then bs "FAIL-REPEATED-MEMBER"
+          else bs "FAIL" in
+        tag ++ bs " want=" ++ want ++ bs " impl=" ++ obs
   | _ => bs "badargs"
   end.
 
@@ -151,6 +173,7 @@ Definition check (b : bool) (msg : string) (rest : bytes) : bytes :=
 Definition prop_sign (args : list bytes) : bytes :=
   match args with
   | [name; kid; _; t; obs] =>
+      if negb (utf8_valid t) then check (bytes_eqb obs err) "signed a text that is not UTF-8" okb else
       match parse_json t with
       | None => check (bytes_eqb obs err) "signed an invalid text" okb
       | Some v =>
@@ -165,9 +188,14 @@ Definition prop_sign (args : list bytes) : bytes :=
                 let is_new := fun (e : bytes * bytes * json) => bytes_eqb (fst (fst e)) name && bytes_eqb (snd (fst e)) kid in
                 check (match v with JObj _ => true | JNull => true | _ => false end) "signed a non-object"
                (check (bytes_eqb out (canon_print o)) "output not canonical"
-               (check (bytes_eqb (canon_print (strip o)) (canon_print (strip v)) || (match v with JNull => true | _ => false end))
-                      "signed content changed"
-               (check (opt_canon_eqb (jget k_unsigned o) (jget k_unsigned v)) "unsigned changed"
+               (if negb (bytes_eqb (canon_print (strip o)) (canon_print (strip v)) || (match v with JNull => true | _ => false end))
+                then (if has_unpaired_surrogate t
+                      then bs "FAIL-UNPAIRED-SURROGATE signed content changed"
+                      else bs "FAIL signed content changed") else
+               (if negb (opt_canon_eqb (jget k_unsigned o) (jget k_unsigned v))
+                then (if has_unpaired_surrogate t
+                      then bs "FAIL-UNPAIRED-SURROGATE unsigned changed"
+                      else bs "FAIL unsigned changed") else
                (check (match jpath [k_signatures; name; kid] o with Some j => json_eqb j sig_mask | None => false end)
                       "new signature missing"
                (check (forallb (fun e => is_new e ||
